@@ -14,7 +14,7 @@ RULE = ("abstract cues (1-3 per document, 1-3 lines each, each line 1-4 runs of 
         "decimal / hex where the grammar has them; raw otherwise), literal text that looks like "
         "an entity, line-break markup variants, wrapping of text over indented source lines "
         "(DFXP, SAMI), inline markup around runs (DFXP span with/without styling, nested; SAMI "
-        "i/b/u/span/font; WebVTT i/b/u/c.cls/ruby+rt/lang/timestamp tags, voice tags, unknown "
+        "i/b/u/span/font; WebVTT i/b/u/c.cls/ruby+rt/lang tags, timestamp tags in both spellings ([hh+:]mm:ss.ttt), voice tags, unknown "
         "tags from a pool that shares first letters with known tags). Expected display text = "
         "concatenated authored runs (voice -> 'Name: ' prefix, unknown tag -> literal), compared "
         "per line after trimming and collapsing whitespace. Non-trivial: the document contains "
@@ -316,7 +316,11 @@ def webvtt_strategy(tier):
         elif tag == "lang":
             enc = f"<lang en-GB>{enc}</lang>"
         elif tag == "ts":
-            enc = f"<00:00:01.500>{enc}"
+            # WebVTT timestamp tag, both spellings of a timestamp: [hh+:]mm:ss.ttt
+            hh = draw(st.sampled_from(["", "", "00:", "01:", "10:", "100:"]))
+            ts = "<%s%02d:%02d.%03d>" % (hh, draw(st.integers(0, 59)), draw(st.integers(0, 59)),
+                                        draw(st.sampled_from([0, 1, 500, 999])))
+            enc = ts + enc
         elif tag == "voice":
             name = draw(st.sampled_from(["Bob", "Mary Ann", "Dr. Who"]))
             enc = f"<v {name}>{enc}</v>"
